@@ -75,7 +75,7 @@ class C02(Sim):
     expected_probes = [
         "nan_row_after_boundary_lock_previous", "nan_first_row_after_restart_with_default", "out_of_range_row_lock_range",
         "one_row_segment", "matrix_setter_single_input", "all_nan_segment", "parity_event", "hybrid_engine",
-        "output_variable_in_antecedent", "vector_setter", "cascade_changed_a_row", "configuration_changed_between_segments", "scalar0d_setter", "mixed_family_output_with_disjoint_rules", "shipped_example_engine", "output_matrix_compared", "input_arrays_refilled_in_place", "one_row_as_0d_arrays",
+        "output_variable_in_antecedent", "vector_setter", "cascade_changed_a_row", "configuration_changed_between_segments", "scalar0d_setter", "mixed_family_output_with_disjoint_rules", "shipped_example_engine", "output_matrix_compared", "input_arrays_refilled_in_place", "one_row_as_0d_arrays", "strided_view_batch", "readonly_batch", "integer_typed_batch",
     ]
 
     def prepare(self) -> None:
@@ -119,7 +119,13 @@ class C02(Sim):
                     setter = "inplace"
                 if setter == "scalar0d":
                     rows = [[rows[0][0]] * len(sp["inputs"])]
-                ops.append({"op": "seg", "rows": rows, "setter": setter})
+                seg = {"op": "seg", "rows": rows, "setter": setter}
+                lay = rng.random()
+                if lay < 0.08:
+                    seg["layout"] = "view"
+                elif lay < 0.16:
+                    seg["layout"] = "readonly"
+                ops.append(seg)
             elif r < 0.82:
                 if rng.random() < 0.5:
                     ops.append({"op": "toggle", "path": EO.gen_toggle_path(rng, sp)})
@@ -274,7 +280,7 @@ class C02(Sim):
                 # the caller keeps the arrays it handed over and refills them in place for the next batch (legal: the
                 # variable holds a reference). Only when the previous segment left k-row arrays of ours in every input
                 # variable and no input clips (clipping stores a new array).
-                ok = (k > 1 and len(held) == n_in and all(iv.value is h and h.shape == (k,) and h.dtype == np.float64 for iv, h in zip(A.input_variables, held))
+                ok = (k > 1 and len(held) == n_in and all(iv.value is h and h.shape == (k,) and h.dtype == np.float64 and h.flags.writeable for iv, h in zip(A.input_variables, held))
                       and not any(iv.lock_range for iv in A.input_variables))
                 if not ok:
                     setter = "vars"
@@ -295,6 +301,17 @@ class C02(Sim):
                         # an all-integral batch handed over as integer arrays (users write np.array([0, 1, 2]))
                         held = [h.astype(np.int64) for h in held]
                         st.hit("probes.integer_typed_batch")
+                    elif op.get("layout") == "view":
+                        # columns of a bigger table: strided, non-contiguous views (users write data[:, 3])
+                        big = np.full((k, 2 * n_in + 1), 7.25)
+                        for c in range(n_in):
+                            big[:, 2 * c + 1] = arr[:, c]
+                        held = [big[:, 2 * c + 1] for c in range(n_in)]
+                        st.hit("probes.strided_view_batch")
+                    elif op.get("layout") == "readonly":
+                        for h in held:
+                            h.setflags(write=False)  # e.g. memory-mapped or broadcast data
+                        st.hit("probes.readonly_batch")
                     for c, iv in enumerate(A.input_variables):
                         iv.value = held[c]
                 elif setter == "matrix":
